@@ -37,7 +37,7 @@ def main():
             for pr in props:
                 r = sh("cd %s && ./check %s --tier %s 2>&1" % (V, pr, a.tier))
                 v = [l for l in r.stdout.splitlines() if l.startswith(("VIOLATION", "  clause", "INFRA", "DRIFT", "KNOWN"))]
-                print("%-28s %s rc=%d %s" % (m["id"], pr, r.returncode, " | ".join(v[:4])))
+                print("%-28s %s rc=%d %s" % (m["id"], pr, r.returncode, " | ".join(v[:4])), flush=True)
                 results.append((m["id"], pr, r.returncode))
         finally:
             sh("git -C /repo checkout -- .")
